@@ -11,7 +11,7 @@ import (
 )
 
 // C19 (formula half): timeout(v) = base*2^v, positive, non-decreasing, saturating.
-func init() { checks["C19F"] = c19f }
+func init() { checks["C19:formula"] = c19f }
 
 func c19f(r *Rec, replay map[string]interface{}) {
 	r.Rule = "views 0..200 and {2^k, 2^k+-1} for k<=64 x bases {1ns,1ms,4s,1h,MaxInt64/2}: CalcTimeout compared with min(base*2^v, MaxInt64) in big integers; positive; non-decreasing along the sorted view list. distinct_nontrivial = distinct (base, min(view,70)) pairs"
